@@ -1,5 +1,6 @@
 """C10: decided on operation histories (see DESIGN.md section 7 for what is compared and proved)."""
 from . import _multi
+from .. import sampling
 from ._store import replay_store, run_store
 
 QUICK = [('compress', 100), ('compress_big', 12)]
@@ -10,6 +11,8 @@ def run(tier: str):
     rep = run_store('C10', tier, QUICK, THOROUGH)
     # recorded sizes as reported through a long-open handle's slow read path
     rep.failures += _multi.stale_handle_failures('C10', 40 if tier == 'quick' else 500, ('meta-size', 'bulkmeta-size'), rep)
+    # the AUTO heuristic's sampling loop against its Lean model (reads, position restored, verdict from the sampled bytes)
+    sampling.run_sampling(tier, rep)
     return rep
 
 
